@@ -193,6 +193,7 @@ struct Norm<'a> {
     closure_args: usize,
     deref_idents: Vec<String>,
     keep_async: bool,
+    yieldctx: Option<String>,
 }
 
 impl<'a> Norm<'a> {
@@ -429,6 +430,20 @@ impl<'a> VisitMut for Norm<'a> {
                 self.stats.bump("N7.await");
             }
         }
+        // N8: `yield e` ==> `__sink.emit(e, Ghost(CTX.stamp()))` (the sink records the transport state at the yield)
+        if let Expr::Yield(y) = e {
+            let ctx = match &self.yieldctx {
+                Some(c) => ident(c),
+                None => die("unsupported", &format!("`yield` outside a stream body in {}", self.desc)),
+            };
+            let val: Expr = match &y.expr {
+                Some(v) => (**v).clone(),
+                None => parse_quote!(()),
+            };
+            *e = parse_quote!(__sink.emit(#val, Ghost(#ctx.stamp())));
+            self.stats.bump("N8.yield");
+            return;
+        }
         // N4 in expression position (match arm body): replace by ()
         if let Expr::Macro(em) = e {
             if is_log_macro(&em.mac) {
@@ -500,7 +515,7 @@ impl<'a> VisitMut for Norm<'a> {
 /// Returns the number of loops found (pre-order numbering).
 pub fn normalise(block: &mut syn::Block, opts: &BTreeMap<String, String>, stats: &mut Stats, desc: &str) -> usize {
     let deref_idents = opts.get("n3").map(|s| s.split(',').map(|x| x.to_string()).collect()).unwrap_or_default();
-    let mut n = Norm { stats, desc, loops: 0, tmp: 0, closure_args: 0, deref_idents, keep_async: false };
+    let mut n = Norm { stats, desc, loops: 0, tmp: 0, closure_args: 0, deref_idents, keep_async: false, yieldctx: opts.get("yieldctx").cloned() };
     n.visit_block_mut(block);
     n.loops
 }
@@ -526,8 +541,19 @@ pub fn extract_macro_block(block: &syn::Block, mac: &str, desc: &str, stats: &mu
     let ts = f.found.pop().unwrap();
     let wrapped = quote::quote!({ #ts });
     match syn::parse2::<syn::Block>(wrapped) {
-        Ok(b) => {
+        Ok(mut b) => {
             stats.bump("N8.stream_body");
+            if mac == "try_stream" {
+                // normal completion of a try_stream! body ends the stream without an error item
+                if let Some(Stmt::Expr(_, None)) = b.stmts.last() {
+                    // make the trailing expression a statement
+                    if let Some(Stmt::Expr(ex, semi)) = b.stmts.last_mut() {
+                        let _ = ex;
+                        *semi = Some(Default::default());
+                    }
+                }
+                b.stmts.push(parse_quote!(return Ok(());));
+            }
             b
         }
         Err(e) => die("unsupported", &format!("cannot parse body of `{}!` in {}: {}", mac, desc, e)),
